@@ -207,6 +207,7 @@ type dnode struct {
 	closed  bool
 	stalled bool
 	appliesAtCreate int
+	foreignAtCreate int
 	filter  world.FilterSpec
 	parent *dnode
 	tmonitor, umonitor kcache.Monitor
@@ -465,13 +466,14 @@ func runC20(sci interface{}) {
 			}
 		}
 	}
-	applies := 0
+	applies, foreigns := 0, 0
 	for _, a := range sc.Acts {
 		switch a.Op {
 		case "apply":
 			applies++
 			srv.Apply(world.Spec{NS: a.NS, Name: a.Name, Labels: a.Labels})
 		case "foreign":
+			foreigns++
 			srv.Apply(world.Spec{NS: a.NS, Name: a.Name, Labels: a.Labels, Kind: sc.Foreign})
 		case "delete":
 			srv.Delete(a.NS + "/" + a.Name)
@@ -563,6 +565,7 @@ func runC20(sci interface{}) {
 			nodes = append(nodes, n)
 			n.stalled = a.Stalled && a.Kind == "sub"
 			n.appliesAtCreate = applies
+			n.foreignAtCreate = foreigns
 			if !n.stalled {
 				reader(n.t.Events, &n.te)
 				reader(n.u.Events, &n.ue)
@@ -640,6 +643,9 @@ func runC20(sci interface{}) {
 		if need > bs {
 			need = bs
 		}
+		// a foreign-typed frame takes a slot of the buffer that feeds the typed
+		// layer before it is skipped: each one may displace one event
+		need -= foreigns - n.foreignAtCreate + srv.F.Fired["watch-foreign"]
 		for p := n.parent; p != nil; p = p.parent {
 			if p.kind != "clone" {
 				need = 0 // below a filter the count is not determined by the writes alone
